@@ -253,6 +253,13 @@ def run(ctx):
     ctx.need("R17.4", "starts_with", len(sw), 1)
     for f in sw:
         a, b = f.params[0]["name"], f.params[1]["name"]
+        # the prefix relation is over all byte strings: both operands are length-carrying strings, not NUL-terminated views
+        pts = [(p0.get("type") or "") for p0 in f.params[:2]]
+        lenful = all(re.search(r"basic_string|std::string|string_view", t) for t in pts)
+        ctx.check(lenful, "R17.4", f, "operands-carry-their-length", "starts_with takes (%s): a NUL-terminated view ends at the first NUL byte, so length and comparison ignore everything behind it - "
+                  "starts_with(\"ab\", \"ab\\0zz\") holds although it is not a prefix" % ", ".join(pts), f, why_ok=", ".join(pts))
+        if not lenful:
+            continue
         r = [fmt(ir.unwrap(e["expr"].get("e"))) for _, _, e in f.roots() if e["expr"].get("k") == "return"]
         good = {"(%s.find(%s, 0) == 0)" % (a, b), "(%s.rfind(%s, 0) == 0)" % (a, b), "(%s.compare(0, %s.size(), %s) == 0)" % (a, b, b), "(%s.compare(0, %s.length(), %s) == 0)" % (a, b, b)}
         wrong = {"(%s.find(%s, 0) != std::basic_string<char>::npos)" % (a, b), "(%s.find(%s, 0) >= 0)" % (a, b), "(%s.rfind(%s, std::basic_string<char>::npos) == 0)" % (a, b)}
